@@ -7,6 +7,7 @@ import SqlObjVerif.Lemmas.InhSelXAll
 import SqlObjVerif.Lemmas.InhSelXSelBy
 import SqlObjVerif.Lemmas.InhSelXAlt
 import SqlObjVerif.Lemmas.InhSelXPatch
+import SqlObjVerif.Lemmas.InhSelXSelectChain
 /-!
 # C15 — inheritance hierarchies stay consistent across their tables
 
@@ -1006,6 +1007,51 @@ theorem C15_translated_byAlternate_own_kind (X : SCtx) (h : X.T.WF) (hreg : X.re
     have := hown.2 hn
     cases this
 
+/-- the translated nested functions `_get_patched` / `_patch_id_clause` of `select` (mutual recursion, the clause changed
+    in place = written back to the caller, sound when the clause object is not shared) compute `patchSql` — the id column
+    of `cls` becomes the parent's in every `SQLOp` reachable through `SQLOp`s, not below a `NOT` — for EVERY clause,
+    given enough levels of recursion -/
+theorem C15_translated_select_patch_eq (c p : Nat) (e : Sql) : ∃ N, ∀ L, N ≤ L →
+    cProc L "_patch_id_clause" [.sql e, .fldId c, .fldId p] = .ok (.sql (patchSql c p e), .none) :=
+  patch_eq c p e
+
+/-- **`cls.select(e, connection=…)`, translated, for every clause and every class forest**: the clause is patched,
+    `AND parent.childName == cls` is added (the test alone for the TRUE clause), the call is delegated up the class chain
+    with `childUpdate=False` and ends in ONE call of the translated `InheritableSelectResults.__init__` on the root class -/
+theorem C15_translated_select_reduces (X : SCtx) (h : X.T.WF) (w : SW) (c : Nat) (e : Sql) (oc : Option Nat) :
+    ∃ N, ∀ n, N ≤ n →
+      selectN X n (c + 1) w c (.sql e) (opsOf oc) = selFin X w (X.T.root c) (.sql (selClauseR X.T c e)) oc :=
+  selectN_eq X h w c e oc
+
+/-- **against the hand model, for ARBITRARY clauses under tables / meaning hypotheses**: whenever the clause finally
+    handed on (`selClauseR`) uses exactly the tables `selNeeded` of a filter `f` and means `kindOk ∧ f` on a joined row,
+    the select object returned runs a query whose rows are exactly the ids `selectRow` selects, one row per id -/
+theorem C15_translated_select_eq_model (X : SCtx) (h : X.T.WF) (hreg : X.reg.Nodup) (w : SW) (c : Nat) (f : Filter)
+    (e : Sql) (oc : Option Nat) (hregAll : ∀ a, a ∈ X.T.anc c → a ∈ X.reg) (hf : ∀ a, a ∈ f.classes → a ∈ X.T.anc c)
+    (hu : ∀ x, x ∈ sqlTables (selClauseR X.T c e) ++ [X.T.root c] ↔ selNeeded X.T c f x = true)
+    (hev : ∀ (db : DB) (i : Nat), sqlEval db (fun _ => i) (selClauseR X.T c e) = (kindOk X.T db c i && f.eval db i)) :
+    ∃ g N, (∀ n, N ≤ n → selectN X n (c + 1) w c (.sql e) (opsOf oc) =
+        .ret { w with made := some ⟨X.T.root c, g, oc.getD X.dflt⟩ } (.ref 10 0)) ∧
+      ∀ db : DB,
+        (∀ i, (∃ σ, Sat db (X.T.root c) g σ ∧ σ (X.T.root c) = i) ↔ (selectRow X.T db c f i).isSome = true) ∧
+        (∀ σ σ', Sat db (X.T.root c) g σ → Sat db (X.T.root c) g σ' → σ (X.T.root c) = σ' (X.T.root c) →
+          ∀ a, a ∈ sqlTables g ++ [X.T.root c] → σ a = σ' a) :=
+  select_model X h hreg w c f e oc hregAll hf hu hev
+
+/-- … instantiated: the clause of a filter over own and inherited columns and the class's id (`sqlOf c f`), no id
+    comparison below a NOT (there `_patch_id_clause` leaves the subclass's id column in place: same rows without orphans,
+    but a different join) — the hypotheses above hold, for the TRUE clause too -/
+theorem C15_translated_select_filter_eq_model (X : SCtx) (h : X.T.WF) (hreg : X.reg.Nodup) (w : SW) (c : Nat) (f : Filter)
+    (oc : Option Nat) (hregAll : ∀ a, a ∈ X.T.anc c → a ∈ X.reg) (hf : ∀ a, a ∈ f.classes → a ∈ X.T.anc c)
+    (hid : idOutsideNot f = true) :
+    ∃ g N, (∀ n, N ≤ n → selectN X n (c + 1) w c (.sql (sqlOf c f)) (opsOf oc) =
+        .ret { w with made := some ⟨X.T.root c, g, oc.getD X.dflt⟩ } (.ref 10 0)) ∧
+      ∀ db : DB,
+        (∀ i, (∃ σ, Sat db (X.T.root c) g σ ∧ σ (X.T.root c) = i) ↔ (selectRow X.T db c f i).isSome = true) ∧
+        (∀ σ σ', Sat db (X.T.root c) g σ → Sat db (X.T.root c) g σ' → σ (X.T.root c) = σ' (X.T.root c) →
+          ∀ a, a ∈ sqlTables g ++ [X.T.root c] → σ a = σ' a) :=
+  select_filter_model X h hreg w c f oc hregAll hf hid
+
 /-! ### Non-vacuity: the translated constructor runs (no `stuck`) on the three-level hierarchy `T0` -/
 
 /-- `K3.select(K0.col0 >= 0, connection=1)` → source `K0`, clause `K0.col0 >= 0 AND K1.childName = 'K3'`: one join
@@ -1061,9 +1107,8 @@ example : (match findAltX ⟨T0, 0, [0, 1, 2, 3, 4, 5]⟩ [1] ⟨fun _ => db0, n
 
 `selectN` RUNS the translated `select` calling itself up the class chain (`childUpdate=False`) and, at the root, the
 translated constructor; the nested functions are translated as blocks of their own (`select_get_patched`,
-`select_patch_id_clause`, in-out parameter, `Lemmas/InhSelXPatch.lean`: one-level lemmas).  The all-inputs theorem
-(`= selInitX (root) (patchSql … AND childName test)`) is NOT proved yet; these closed runs are witnesses that break
-under semantic edits of `select`. -/
+`select_patch_id_clause`, in-out parameter, `Lemmas/InhSelXPatch*.lean`).  The all-inputs theorems are above (`C15_translated_select_*`); these closed runs show the
+hypotheses are satisfiable and pin the behaviour below a NOT and at a root class. -/
 
 /-- `K3.select(AND(K3.q.id >= 2, K0.q.<col 0> >= 0), connection=1)`: the id comparison is patched onto `K1`'s id column
     (in place, below the AND), `K1.childName == 'K3'` is added, the query is delegated `K3 → K1 → K0` and built by the
